@@ -702,7 +702,9 @@ def oracle(c):
     if op == "merge":
         ks = [(rank[x[0]], x[1]) for x in kept]
         if ks != sorted(ks):
-            return SKIP                                # merge requires entries sorted in genome order
+            # entries that are not in genome order are not a valid input: in memory an error is demanded (the
+            # grouping would otherwise attribute entries to the wrong chromosome); the streamed path is C12's
+            return {"err": "raised"} if path == "mem" else SKIP
         out = []
         for i in incl:
             out += [[rank[i], s, e] for s, e in _merge1(c["d"], [(x[1], x[2]) for x in kept if x[0] == i])]
@@ -908,6 +910,9 @@ def _cases_main(tier, rng):            # created in the parent, before the worke
     yield {"op": "merge", "via": "genome", "names": ["chr1", "chr2"], "sizes": [5, 5], "filt": True,
            "iv": [[0, 1, 2, True], [1, 1, 2, True]], "d": 0}
     yield from _boundary_merge_cases()
+    for via in ("geometry", "genome"):
+        yield {"op": "merge", "via": via, "names": ["chr1", "chr2"], "sizes": [5, 5], "filt": True,
+               "iv": [[0, 0, 2, True], [1, 0, 1, True], [0, 1, 3, True]], "d": 0}
     # 1. coordinate maps: exhaustive over small genomes
     top = 3 if big else 2
     for n in (1, 2, 3):
@@ -981,6 +986,9 @@ def _cases_main(tier, rng):            # created in the parent, before the worke
             ok, ig = _sorted_genome(iv, rank)
             merged_in = ok + ig if rng.random() < 0.5 else ig + ok
             yield dict(base, op="merge", via=via, iv=merged_in, d=rng.choice([0, 0, 1, 2]))
+            if len(ok) >= 2 and rng.random() < 0.5:
+                perm = rng.sample(ok, len(ok))                                 # not in genome order (maybe not contiguous)
+                yield dict(base, op="merge", via=via, iv=perm, d=rng.choice([0, 1]))
             if ok and rng.random() < 0.4:
                 bad = [list(x) for x in ok]
                 j = rng.randrange(len(bad))
